@@ -239,6 +239,7 @@ def main():
     ap.add_argument("--files", default="")
     ap.add_argument("--tier", default="quick")
     ap.add_argument("--resume", action="store_true")
+    ap.add_argument("--rerun-missed", action="store_true", help="run again (with the current checks) the mutants that survived the tests and every check so far")
     a = ap.parse_args()
     if a.cmd == "table":
         return table()
@@ -257,6 +258,13 @@ def main():
     if a.resume and os.path.exists(OUT):
         done = {json.loads(l)["id"] for l in open(OUT)}
     ms = [m for m in ms if m["id"] not in done]
+    if a.rerun_missed:
+        last = {}
+        for l in open(OUT):
+            r = json.loads(l)
+            last[r["id"]] = r
+        again = {i for i, r in last.items() if r["tests"] == "pass" and not r["caught_by"]}
+        ms = [m for m in all_mutants() if m["id"] in again]
     head = subprocess.check_output(["git", "-C", REPO, "rev-parse", "HEAD"]).decode().strip()
     root = tempfile.mkdtemp(prefix="mutwt-")
     pool = []
